@@ -1035,3 +1035,42 @@ VARIANTS['C10'] += [
         "        if isinstance(keys, dict):\n            keys = list(keys.keys())\n        raw_kids = [KeyMaterial(kid).raw for kid in keys]\n        return mp4.ContentProtectionSpecificBox(\n            version=1, flags=0, system_id=PlayReady.RAW_SYSTEM_ID,\n            key_ids=raw_kids, data=pro)")],
       None),
 ]
+
+CKF = 'dashlive/drm/clearkey.py'
+DCF = 'dashlive/server/requesthandler/drm_context.py'
+_ck_falsy = (CKF, "        if locations is None:\n            locations = {DrmLocation.CENC, DrmLocation.MOOV}", "        if not locations:\n            locations = {DrmLocation.CENC, DrmLocation.MOOV}")
+_dc_filter = (DCF, "            rv.append((drm_name, drm, locations,))", "            if drm_name != 'playready':\n                locations = locations - {'pro'}\n            rv.append((drm_name, drm, locations,))")
+for _p in ('C10', 'C11'):
+    VARIANTS[_p] += [
+        V('ClearKey defaults a falsy location set and the context can filter a requested set empty', [_ck_falsy, _dc_filter],
+          'R10.3' if _p == 'C10' else 'R11.1', 'ClearKey.generate_manifest_context'),
+        V('neutral: ClearKey defaults a falsy location set (no caller can pass an empty one)', [_ck_falsy], None),
+        V('neutral: the context filters pro out of the locations of other systems (defaults stay keyed on None)', [_dc_filter], None),
+    ]
+
+MCTX = 'dashlive/server/requesthandler/manifest_context.py'
+VARIANTS['C12'] += [
+    V('pass counter advanced when the index drops below the previous one (never with one stored period)',
+      [(MCTX, "            index = (index + 1) % len(periods)\n            if index == 0:\n                num_loops += 1",
+        "            prev_index = index\n            index = (index + 1) % len(periods)\n            if index < prev_index:\n                num_loops += 1")],
+      'R12.4', 'create_all_live_periods'),
+    V('neutral: pass counter advanced when the index does not grow',
+      [(MCTX, "            index = (index + 1) % len(periods)\n            if index == 0:\n                num_loops += 1",
+        "            prev_index = index\n            index = (index + 1) % len(periods)\n            if index <= prev_index:\n                num_loops += 1")],
+      None),
+    V('neutral: index wraps by an explicit reset',
+      [(MCTX, "            index = (index + 1) % len(periods)\n            if index == 0:\n                num_loops += 1",
+        "            index += 1\n            if index >= len(periods):\n                index = 0\n                num_loops += 1")],
+      None),
+]
+
+CSRFF = 'dashlive/server/requesthandler/csrf.py'
+TOKF = 'dashlive/server/models/token.py'
+_csrf_cut = (CSRFF, "        token = str(urllib.parse.unquote(csrf_token))\n", "        token = str(urllib.parse.unquote(csrf_token))[:Token.MAX_TOKEN_LENGTH]\n")
+_tok_exact = (TOKF, "    MAX_TOKEN_LENGTH: ClassVar[int] = max(\n        36, 2 + CSRF_SALT_LENGTH + (3 * hashlib.sha1().digest_size // 2))",
+              "    MAX_TOKEN_LENGTH: ClassVar[int] = max(\n        36, CSRF_SALT_LENGTH + 3 + 4 * ((hashlib.sha1().digest_size + 2) // 3))")
+VARIANTS['C15'] += [
+    V('submitted token cut to a maximum length that is exactly the genuine length', [_csrf_cut, _tok_exact], 'R15.4', 'CsrfProtection.check'),
+    V('neutral: submitted token cut to a maximum length beyond the genuine length', [_csrf_cut], None),
+    V('neutral: MAX_TOKEN_LENGTH computed exactly (nothing is cut to it)', [_tok_exact], None),
+]
